@@ -288,14 +288,13 @@ def check_worker_tick(ctx):
     pat = r'^(worker_pool::)?worker_tick$'
     ob = ctx.ob('worker-tick/journal-errors-propagate', 'worker_tick: an Err from journal rotation, from the journal position query or from journal maintenance is returned to the worker loop '
                 '(which poisons the database); none of them is logged and dropped', [pat])
-    ex, paths = ctx.run(pat, cache_key='c10.tick', loop_bound=2,
-                        no_inline=[r'run_flush$', r'run_compaction$', r'JournalManager::maintenance$', r'JournalManager::rotate_journal$', r'Supervisor::build_seqno_map$',
-                                   r'get_keyspaces_to_flush_for_oldest_journal_eviction$', r'inner_rotate_memtable$', r'request_rotation$', r'FlushManager::dequeue$'])
+    from . import c10
+    ex, paths = c10.run_tick(ctx)
     bad = []
     inc = [q for q in paths if q.status in ('error', 'timeout')]      # (paths cut by the loop bound are iterations of the stall / retry loops, not exits)
     if inc:
         ob.status = 'undecided'; ob.detail = 'executor: ' + str(inc[0].notes[-1:]); return ob
-    WATCH = ('rotate_journal', 'JournalManager::maintenance', 'Writer::pos')
+    WATCH = ('rotate_journal', 'JournalManager::maintenance', 'Writer::pos', 'flush::worker::run', 'compaction::worker::run')
     for p in paths:
         if p.status != 'returned':
             continue
